@@ -361,11 +361,119 @@ static inline int post_verif_moveaxis_to_transpose(sv_t shape, int source, int d
       && IMPLIES(ok, SV_LEN(OPT_VAL(ret)) == n
                   && IMPLIES(g < n, SV_AT(OPT_VAL(ret), g) == MOVEAXIS_AT(g, NORM(source, n), NORM(destination, n)) && SV_AT(OPT_VAL(ret), g) < n));
 }
-/* ---- moveaxis with axis LISTS (placeholder) */
-static inline int pre_verif_moveaxis_to_transpose_l2(sv_t shape, ai2_t source, ai2_t destination) { return SV_LEN(shape) <= CAP; }
-static inline int post_verif_moveaxis_to_transpose_l2(sv_t shape, ai2_t source, ai2_t destination, opt_sv_t ret) { return 1; }
-static inline int pre_verif_moveaxis_to_transpose_list(sv_t shape, svi_t source, svi_t destination) { return SV_LEN(shape) <= CAP; }
-static inline int post_verif_moveaxis_to_transpose_list(sv_t shape, svi_t source, svi_t destination, opt_sv_t ret) { return 1; }
+/* ------------------------------------------------------------------ moveaxis with axis LISTS
+ * numpy.moveaxis(a, source, destination)   (numpy/core/numeric.py):
+ *     source      = normalize_axis_tuple(source, a.ndim, 'source')            AxisError unless -ndim <= axis < ndim,
+ *     destination = normalize_axis_tuple(destination, a.ndim, 'destination')  ValueError "repeated axis" on duplicates
+ *     if len(source) != len(destination): raise ValueError
+ *     order = [n for n in range(a.ndim) if n not in source]
+ *     for dest, src in sorted(zip(destination, source)): order.insert(dest, src)
+ *     return transpose(a, order)
+ * The two helpers below are that text, executed on plain arrays (lists of at most CAP axes, rank at most CAP). */
+static inline int np_axis_tuple_ok(const long *a, unsigned long m, unsigned long n)
+{
+  int ok = 1;
+  for (unsigned long t = 0; t < CAP; t++)
+    if (t < m && !AXIS_OK(a[t], n)) ok = 0;
+  for (unsigned long t = 0; t < CAP; t++)
+    for (unsigned long u = 0; u < CAP; u++)
+      if (ok && t < u && u < m && NORM(a[t], n) == NORM(a[u], n)) ok = 0;      /* repeated axis */
+  return ok;
+}
+/* element k of `order` (only meaningful when both tuples are accepted and have the same length m) */
+static inline unsigned long np_moveaxis_at(unsigned long n, const long *S, const long *D, unsigned long m, unsigned long k)
+{
+  unsigned long order[CAP + 1UL];
+  unsigned long len = 0UL, r = 0UL;
+  for (unsigned long x = 0; x <= CAP; x++) order[x] = 0UL;
+  /* order = [x for x in range(n) if x not in source] */
+  for (unsigned long x = 0; x < CAP; x++)
+    if (x < n) {
+      int in = 0;
+      for (unsigned long t = 0; t < CAP; t++)
+        if (t < m && NORM(S[t], n) == x) in = 1;
+      if (!in) {
+        for (unsigned long j = 0; j <= CAP; j++)
+          if (j == len) order[j] = x;                       /* append */
+        len++;
+      }
+    }
+  /* for dest, src in sorted(zip(destination, source)): order.insert(dest, src)
+   * (the destinations are pairwise distinct, so the sorted pairs are met by visiting the destination values in ascending order) */
+  for (unsigned long v = 0; v < CAP; v++)
+    for (unsigned long t = 0; t < CAP; t++)
+      if (t < m && NORM(D[t], n) == v) {
+        unsigned long pos = v < len ? v : len;              /* list.insert clamps the position to len(list) */
+        for (unsigned long j = CAP; j > 0UL; j--)
+          if (j > pos && j <= len) order[j] = order[j - 1UL];
+        for (unsigned long j = 0; j <= CAP; j++)
+          if (j == pos) order[j] = NORM(S[t], n);
+        len++;
+      }
+  for (unsigned long j = 0; j <= CAP; j++)
+    if (j == k) r = order[j];
+  return r;
+}
+/* the repeated-axis part of NumPy's validation alone (every entry in range, some normalised axis listed twice) */
+static inline int np_axis_tuple_repeats(const long *a, unsigned long m, unsigned long n)
+{
+  int inrange = 1, rep = 0;
+  for (unsigned long t = 0; t < CAP; t++)
+    if (t < m && !AXIS_OK(a[t], n)) inrange = 0;
+  for (unsigned long t = 0; t < CAP; t++)
+    for (unsigned long u = 0; u < CAP; u++)
+      if (inrange && t < u && u < m && NORM(a[t], n) == NORM(a[u], n)) rep = 1;
+  return inrange && rep;
+}
+static inline int moveaxis_lists_post(unsigned long n, const long *S, unsigned long ms, const long *D, unsigned long md, opt_sv_t ret)
+{
+  int ok = np_axis_tuple_ok(S, ms, n) && np_axis_tuple_ok(D, md, n) && ms == md;
+  return (OPT_HAS(ret) != 0) == (ok != 0)
+      && IMPLIES(ok, SV_LEN(OPT_VAL(ret)) == n
+                  && IMPLIES(g < n, SV_AT(OPT_VAL(ret), g) == np_moveaxis_at(n, S, D, ms, g) && SV_AT(OPT_VAL(ret), g) < n));
+}
+/* (a) lists of the fixed length 2 (nmtools_array<int,2>), rank 0..8 symbolic */
+#define MV_L2(A, v) long A[CAP] = {0}; A[0] = ARR_AT(v, 0); A[1] = ARR_AT(v, 1)
+static inline int pre_verif_moveaxis_to_transpose_l2(sv_t shape, ai2_t source, ai2_t destination)
+{ return SV_LEN(shape) <= CAP; }
+static inline int post_verif_moveaxis_to_transpose_l2(sv_t shape, ai2_t source, ai2_t destination, opt_sv_t ret)
+{
+  MV_L2(S, source); MV_L2(D, destination);
+  return moveaxis_lists_post(SV_LEN(shape), S, 2UL, D, 2UL, ret);
+}
+static inline int moveaxis_l2_repeated(sv_t shape, ai2_t source, ai2_t destination)
+{
+  MV_L2(S, source); MV_L2(D, destination);
+  unsigned long n = SV_LEN(shape);
+  return n <= CAP && (np_axis_tuple_repeats(S, 2UL, n) || np_axis_tuple_repeats(D, 2UL, n))
+      && AXIS_OK(S[0], n) && AXIS_OK(S[1], n) && AXIS_OK(D[0], n) && AXIS_OK(D[1], n);
+}
+/* (b) lists utl::static_vector<int,8> (length 0..8 symbolic), rank 0..8 symbolic */
+#define MV_LSV(A, v) long A[CAP] = {0}; for (unsigned long t_ = 0; t_ < CAP; t_++) if (t_ < SV_LEN(v)) A[t_] = SV_AT(v, t_)
+static inline int pre_verif_moveaxis_to_transpose_list(sv_t shape, svi_t source, svi_t destination)
+{ return SV_LEN(shape) <= CAP && SV_LEN(source) <= CAP && SV_LEN(destination) <= CAP; }
+static inline int post_verif_moveaxis_to_transpose_list(sv_t shape, svi_t source, svi_t destination, opt_sv_t ret)
+{
+  MV_LSV(S, source); MV_LSV(D, destination);
+  return moveaxis_lists_post(SV_LEN(shape), S, SV_LEN(source), D, SV_LEN(destination), ret);
+}
+static inline int moveaxis_list_repeated(sv_t shape, svi_t source, svi_t destination)
+{
+  MV_LSV(S, source); MV_LSV(D, destination);
+  unsigned long n = SV_LEN(shape);
+  if (!(n <= CAP && SV_LEN(source) <= CAP && SV_LEN(destination) == SV_LEN(source))) return 0;
+  return (np_axis_tuple_repeats(S, SV_LEN(source), n) && axes_in_range(destination, n))
+      || (np_axis_tuple_repeats(D, SV_LEN(destination), n) && axes_in_range(source, n));
+}
+/* loop-contract vocabulary of the list instantiations (expanded inside the instantiated functions only) */
+#define MV2_CNT(i, a, b) (((a) < (i) ? 1UL : 0UL) + ((b) < (i) ? 1UL : 0UL))
+#define MV2_LO(a, b) ((a) < (b) ? (a) : (b))
+#define MV2_HI(a, b) ((a) < (b) ? (b) : (a))
+/* j-th axis that is neither a nor b (a != b) */
+#define MV2_REST(j, a, b) ((j) < MV2_LO(a, b) ? (j) : ((j) + 1UL < MV2_HI(a, b) ? (j) + 1UL : (j) + 2UL))
+#define MV2_FILLED(k) (!((k) < (unsigned long)ii) || order.buffer.buffer[k] == MV2_REST(k, src.val._M_elems[0], src.val._M_elems[1]))
+/* insert(pos,val,array): positions above i already hold their left neighbour's entry value, the others are untouched */
+#define MV_SHIFTED(k) ((k) >= array->size_ || array->buffer.buffer[k] == ((k) > i ? __CPROVER_loop_entry(array->buffer.buffer[GIM1(k)]) : __CPROVER_loop_entry(array->buffer.buffer[k])))
 /* ------------------------------------------------------------------ flip (rank 3): slice step -1 exactly on the normalised axes */
 #define FLIP_STEP(ret, k) TUP_GET(ARR_AT(ret, k), 2)
 static inline int pre_verif_flip_slices3(int axis) { return AXIS_OK(axis, 3UL); }
